@@ -10,9 +10,15 @@ pub struct Body { pub b: u8 }
 pub uninterp spec fn spec_body(req: Request<Body>) -> JsonValue;
 #[verifier::external_body]
 pub fn parse_body(req: Request<Body>) -> (r: Result<JsonValue, Error>) ensures r matches Ok(v) ==> v == spec_body(req) { unimplemented!() }
-// `val["method"].as_str() == Some("init_secure_api")` etc. (one-line helpers of OwnerV3Helpers, string matching: trusted)
-pub uninterp spec fn spec_method_is_init(v: JsonValue) -> bool;
-pub uninterp spec fn spec_method_is_open_wallet(v: JsonValue) -> bool;
+// `val["method"].as_str()`: the text of a field of a JSON object (None: no such field, or not a string)
+pub uninterp spec fn spec_json_str_field(v: JsonValue, field: Seq<char>) -> Option<Seq<char>>;
+// the two method names the gate depends on (the one-line helpers is_init_secure_api / is_open_wallet are verified against these)
+pub open spec fn spec_method_is_init(v: JsonValue) -> bool { spec_json_str_field(v, "method"@) == Some("init_secure_api"@) }
+pub open spec fn spec_method_is_open_wallet(v: JsonValue) -> bool { spec_json_str_field(v, "method"@) == Some("open_wallet"@) }
+// L27: `matches!(val[FIELD].as_str(), Some(LIT))` (Index on serde_json::Value and a string-literal pattern) as one call
+#[verifier::external_body]
+pub fn vf_json_str_field_is(val: &JsonValue, field: &str, lit: &str) -> (r: bool)
+    ensures r == (spec_json_str_field(*val, field@) == Some(lit@)) { unimplemented!() }
 // plain = the JSON obtained by opening the AES-256-GCM body of `envelope` under `key`
 // (EncryptedRequest::decrypt = EncryptedBody::decrypt, verified in unit api_encrypted_body: Ok only if the AEAD opens)
 pub uninterp spec fn spec_opens(key: SecretKey, envelope: JsonValue, plain: JsonValue) -> bool;
@@ -80,12 +86,6 @@ pub fn vf_api_shared_key<L, C, K>(api: &Arc<Owner<L, C, K>>) -> (r: Option<Secre
 // the remaining one-line / formatting helpers of OwnerV3Helpers (string matching on JSON, error re-formatting, cell updates)
 pub struct OwnerV3Helpers;
 impl OwnerV3Helpers {
-    #[verifier::external_body]
-    pub fn is_init_secure_api(val: &JsonValue) -> (r: bool) ensures r == spec_method_is_init(*val) { unimplemented!() }
-    #[verifier::external_body]
-    pub fn is_open_wallet(val: &JsonValue) -> (r: bool) ensures r == spec_method_is_open_wallet(*val) { unimplemented!() }
-    #[verifier::external_body]
-    pub fn is_encrypted_request(val: &JsonValue) -> (r: bool) { unimplemented!() }
     #[verifier::external_body]
     pub fn check_error_response(val: &JsonValue) -> (r: (bool, JsonValue)) { unimplemented!() }
     #[verifier::external_body]
